@@ -106,3 +106,15 @@ Proof.
   intros c s Ht Hs. split; apply launch_units; do 4 right; left; (split; [exact Ht|]); exists s; (split; [exact Hs|]); [left|right]; reflexivity.
 Qed.
 Print Assumptions C12_every_timeout_status_has_its_processes.
+
+(* "a timer whose run has moved on or finished is cancelled without invoking anything" — the IF direction, for EVERY state: when
+   the poller's own read of a timer's run answers with a run that has left the status or is finished (Cancelled and the
+   data-deletion states included: the "stopped" guard comes only afterwards), what it does for that timeout configuration is exactly
+   the Cancel of that timer. Trace form: the monitor clause "the poller's lookup that finds the run moved on or finished is followed
+   at once by the Cancel of that timer" *)
+Theorem C12_moved_or_finished_means_cancelled : forall c st inst u n tc tl j t s r s1,
+  to_status tc = st -> p_lookup (t_run t) s = (Ok (Some r), s1) ->
+  (r_status r <> st \/ rs_finished (r_state r) = true) ->
+  process_timeouts c inst u st n (tc :: tl) j t s = p_tcancel (t_id t) s1.
+Proof. exact poller_cancels_moved. Qed.
+Print Assumptions C12_moved_or_finished_means_cancelled.
